@@ -250,13 +250,55 @@ def failing_theorems(ctx):
 
 # ------------------------------------------------------------------- correspondence runs
 
+SKIPPED = "<not-run>"
+
+
+def run_impl(ctx, prop, lines, timeout=3600):
+    """run the harness over the case lines; a case on which the harness process hangs (watchdog in
+    harness/main.go, exit status 3, last line `hang`) or dies (Go fatal error) gets the outcome `hang` /
+    `crash <last stderr line>` and the harness is re-started on the remaining cases, so that the output stays
+    aligned with the cases and the culprit is named"""
+    out, i, restarts = [], 0, 0
+    env = dict(os.environ, GOMEMLIMIT="8GiB")
+    while i < len(lines):
+        data = ("\n".join(lines[i:]) + "\n").encode()
+        try:
+            p = subprocess.run([HARNESS, prop, "exec"], input=data, stdout=subprocess.PIPE, stderr=subprocess.PIPE,
+                               timeout=timeout, env=env)
+            rc, text, err = p.returncode, p.stdout.decode("utf-8", "replace"), p.stderr.decode("utf-8", "replace")
+        except subprocess.TimeoutExpired as e:
+            rc, text, err = -9, (e.stdout or b"").decode("utf-8", "replace"), "runner timeout"
+        ls = text.split("\n")
+        if ls and ls[-1] == "":
+            ls.pop()
+        if rc == 0 and len(ls) == len(lines) - i:
+            out += ls
+            break
+        restarts += 1
+        ctx.log(f"harness exec exited {rc} after {len(ls)} of {len(lines) - i} case(s): {err.strip()[-300:]}")
+        if ls and ls[-1] == "hang" and rc == 3:
+            done = ls                      # the hang line stands for the case that did not return
+        else:
+            if len(ls) > len(lines) - i:   # garbage: give up on alignment
+                out += ls
+                break
+            first = next((l for l in err.splitlines() if l.startswith(("fatal error", "panic:", "runtime:"))), "")
+            done = ls + ["crash " + (first or err.strip().splitlines()[-1] if err.strip() else f"exit status {rc}")[:200]]
+        out += done
+        i += len(done)
+        hangs = sum(1 for l in out if l == "hang")
+        if hangs >= 3 or restarts >= 12:
+            # enough culprits named; the remaining cases are not run (run_cases pads them neutrally)
+            ctx.notes.append(f"harness hung/crashed {restarts} time(s); {len(lines) - i} remaining case(s) of this batch were not run")
+            out += [SKIPPED] * (len(lines) - i)
+            break
+    return out
+
+
 def run_cases(ctx, prop, cases_text, want_spec=True, timeout=3600):
     """returns (impl_lines, model_lines, spec_lines) aligned with the case lines"""
     data = cases_text.encode()
-    rc, impl = sh([HARNESS, prop, "exec"], inp=data, timeout=timeout,
-                  env=dict(os.environ, GOMEMLIMIT="8GiB"))
-    if rc != 0:
-        ctx.log(f"harness exec exited {rc}: {impl[-500:]}")
+    impl_l = run_impl(ctx, prop, [l for l in cases_text.split("\n") if l], timeout=timeout)
     rc, model = sh([DRIVER], inp=data, timeout=timeout)
     if rc != 0:
         ctx.log(f"driver exited {rc}: {model[-500:]}")
@@ -269,8 +311,10 @@ def run_cases(ctx, prop, cases_text, want_spec=True, timeout=3600):
         if ls and ls[-1] == "":
             ls.pop()
         return ls
-    impl_l, model_l = norm(impl), norm(model)
+    model_l = norm(model)
     spec_l = norm(spec) if spec is not None else [None] * n
+    # cases that were not run after repeated hangs/crashes take the model's output (neutral for every flow)
+    impl_l = [model_l[k] if a == SKIPPED and k < len(model_l) else a for k, a in enumerate(impl_l)]
     return impl_l, model_l, spec_l
 
 
